@@ -187,7 +187,7 @@ def gen_case(rng, i, tier):
         p = posixpath.join(d, stem + '.' + (ext or rng.choice(EXTS)))
         files[p] = {'docs': docs if docs is not None else [b]}
         return p
-    kind = rng.choice(['filename', 'filename', 'directive', 'list', 'wildcard', 'cut', 'symlink', 'multi-input', 'later-doc', 'skip-parents', 'missing', 'two-docs'])
+    kind = rng.choice(['filename', 'filename', 'directive', 'list', 'wildcard', 'cut', 'symlink', 'multi-input', 'later-doc', 'skip-parents', 'missing', 'two-docs', 'multi-doc-parents'])
     labels.add('scenario:' + kind)
     depth = rng.randint(1, 4)
     skipP = False
@@ -232,6 +232,26 @@ def gen_case(rng, i, tier):
         # a further layer on top through the filename rule
         if rng.random() < 0.5:
             inputs = [add(stems[-1] + '.top')]
+    elif kind == 'multi-doc-parents':
+        # several documents of one file each name parents: string + list, list + list, string + string, in any order
+        ps = [add(w) for w in words[:4]]
+        forms = rng.choice([('str', 'list'), ('list', 'list'), ('str', 'str'), ('list', 'str'), ('str', 'list', 'str')])
+        docs = []
+        pool = list(words[:4])
+        rng.shuffle(pool)
+        for fm in forms:
+            tagn[0] += 1
+            b = body('t%d' % tagn[0], rng)
+            if fm == 'str':
+                b['$parent'] = pool.pop()
+            else:
+                k = min(len(pool), rng.randint(1, 2))
+                b['$parent'] = [pool.pop() for _ in range(k)]
+            docs.append(b)
+            if not pool:
+                break
+        top = add(words[5] + 'top', docs=docs)
+        inputs = [top]
     elif kind == 'list':
         a, b = add(words[0]), add(words[1])
         c = add(words[1] + '.' + words[2])
